@@ -5,6 +5,7 @@
 tier=${1:-quick}; [ $# -gt 0 ] && shift
 ids="$@"; [ -z "$ids" ] && ids=$(cd /verif/seeded && ls -d */ | tr -d /)
 for id in $ids; do
+  if grep -q '"superseded"' /verif/seeded/$id/meta.json 2>/dev/null; then echo "$id: superseded (see meta.json), skipped"; continue; fi
   d=/tmp/seedrun/$id
   rm -rf $d; git -C /repo worktree prune
   git -C /repo worktree add -q --detach $d HEAD || continue
